@@ -417,6 +417,9 @@ func init() {
 	// ---- staking
 	reg("StakingMessage", func() interface{} { return new(staking.Message) }, func(g *gen) interface{} {
 		acts := []staking.ActionType{staking.ValidatorCreate, staking.ValidatorDeposit, staking.DelegationAdd, staking.DelegationSettle, 0x7f, 0x80}
+		if g.n(2) == 0 {
+			return &staking.Message{Action: staking.ValidatorDeposit, Payload: mustEnc(&staking.TxValidatorDeposit{MainAddress: g.fixtureValidator(), Value: g.smallValue(), Nonce: g.u64()})}
+		}
 		return &staking.Message{Action: acts[g.n(len(acts))], Payload: g.blob()}
 	})
 	reg("TxCreateValidator", func() interface{} { return new(staking.TxCreateValidator) }, func(g *gen) interface{} {
@@ -427,34 +430,34 @@ func init() {
 		return m
 	})
 	reg("TxUpdateValidator", func() interface{} { return new(staking.TxUpdateValidator) }, func(g *gen) interface{} {
-		m := &staking.TxUpdateValidator{Nonce: g.u64(), Name: g.str(), MainAddress: g.addr(), OperatorAddress: g.addr(), Coinbase: g.addr(),
+		m := &staking.TxUpdateValidator{Nonce: g.u64(), Name: g.str(), MainAddress: g.mainAddr(), OperatorAddress: g.addr(), Coinbase: g.addr(),
 			CommissionRate: g.u16(), RiskObligation: g.u16(), AcceptDelegation: g.u16()}
 		m.Sign = g.sign(m)
 		return m
 	})
 	reg("TxValidatorDeposit", func() interface{} { return new(staking.TxValidatorDeposit) }, func(g *gen) interface{} {
-		m := &staking.TxValidatorDeposit{MainAddress: g.addr(), Value: g.big(), Nonce: g.u64()}
+		m := &staking.TxValidatorDeposit{MainAddress: g.mainAddr(), Value: g.smallValue(), Nonce: g.u64()}
 		m.Sign = g.sign(m)
 		return m
 	})
 	reg("TxValidatorWithdraw", func() interface{} { return new(staking.TxValidatorWithdraw) }, func(g *gen) interface{} {
-		m := &staking.TxValidatorWithdraw{MainAddress: g.addr(), Recipient: g.addr(), Value: g.big(), Nonce: g.u64()}
+		m := &staking.TxValidatorWithdraw{MainAddress: g.mainAddr(), Recipient: g.addr(), Value: g.smallValue(), Nonce: g.u64()}
 		m.Sign = g.sign(m)
 		return m
 	})
 	reg("TxValidatorChangeStatus", func() interface{} { return new(staking.TxValidatorChangeStatus) }, func(g *gen) interface{} {
-		m := &staking.TxValidatorChangeStatus{MainAddress: g.addr(), Status: uint8(g.n(2)), Nonce: g.u64()}
+		m := &staking.TxValidatorChangeStatus{MainAddress: g.mainAddr(), Status: uint8(g.n(2)), Nonce: g.u64()}
 		m.Sign = g.sign(m)
 		return m
 	})
 	reg("TxValidatorSettle", func() interface{} { return new(staking.TxValidatorSettle) }, func(g *gen) interface{} {
-		return &staking.TxValidatorSettle{MainAddress: g.addr()}
+		return &staking.TxValidatorSettle{MainAddress: g.mainAddr()}
 	})
 	reg("TxDelegation", func() interface{} { return new(staking.TxDelegation) }, func(g *gen) interface{} {
-		return &staking.TxDelegation{Validator: g.addr(), Value: g.big()}
+		return &staking.TxDelegation{Validator: g.mainAddr(), Value: g.smallValue()}
 	})
 	reg("TxDelegationSettle", func() interface{} { return new(staking.TxDelegationSettle) }, func(g *gen) interface{} {
-		return &staking.TxDelegationSettle{Validator: g.addr()}
+		return &staking.TxDelegationSettle{Validator: g.mainAddr()}
 	})
 	reg("Evidence", func() interface{} { return new(staking.Evidence) }, func(g *gen) interface{} { e := g.evidence(); return &e })
 	reg("Evidences", func() interface{} { return new([]staking.Evidence) }, func(g *gen) interface{} { return g.evidences() })
@@ -598,10 +601,43 @@ func init() {
 }
 
 func (g *gen) consensusCommon() *ucon.ConsensusCommon {
-	return &ucon.ConsensusCommon{Round: g.big(), RoundIndex: g.u32(), Step: g.u32(), Priority: g.hash(), SortitionProof: g.bytes(81), SubUsers: g.u32(),
+	c := &ucon.ConsensusCommon{Round: g.big(), RoundIndex: g.u32(), Step: g.u32(), Priority: g.hash(), SortitionProof: g.bytes(81), SubUsers: g.u32(),
 		BlockHash: g.hash(), ParentHash: g.hash(), Timestamp: g.u64()}
+	if g.n(2) == 0 { // for the handler's current round and index, not from the future
+		c.Round, c.RoundIndex, c.Timestamp = big.NewInt(ctxRound), ctxIndex, 1
+	}
+	return c
+}
+
+// fixtureValidator is the main address of the validator of the staking entry-point fixture (entry.go: key 3, operated
+// by key 2, which is also the sender of every staking message).
+func (g *gen) fixtureValidator() common.Address { return state.PubToAddress(g.keys[3].PubComp) }
+func (g *gen) mainAddr() common.Address {
+	if g.n(2) == 0 {
+		return g.fixtureValidator()
+	}
+	return g.addr()
+}
+func (g *gen) smallValue() *big.Int {
+	if g.n(2) == 0 {
+		return new(big.Int).Mul(big.NewInt(int64(1+g.n(20))), params.StakeUint)
+	}
+	return g.big()
 }
 func (g *gen) votes() *ucon.BlockHashWithVotes {
 	v := g.singleVote()
-	return &ucon.BlockHashWithVotes{Priority: g.hash(), BlockHash: g.hash(), Round: g.big(), RoundIndex: g.u32(), Vote: &v, Timestamp: g.u64()}
+	m := &ucon.BlockHashWithVotes{Priority: g.hash(), BlockHash: g.hash(), Round: g.big(), RoundIndex: g.u32(), Vote: &v, Timestamp: g.u64()}
+	if g.n(2) == 0 {
+		// a vote the entry-point fixture processes all the way: current round and index of the handler, signed (ECDSA, the
+		// fixture runs with EnableBls=false) by the validator key that also signs the enclosing message, not from the future
+		m.Round, m.RoundIndex, m.Timestamp = big.NewInt(ctxRound), ctxIndex, 1
+		payload := append(m.BlockHash.Bytes(), append(m.Round.Bytes(), byte(ctxIndex>>24), byte(ctxIndex>>16), byte(ctxIndex>>8), byte(ctxIndex))...)
+		sig, err := ucon.Sign(g.keys[1].Priv, payload)
+		if err != nil {
+			panic(err)
+		}
+		v.Signature = sig
+		v.Votes = uint32(1 + g.n(30))
+	}
+	return m
 }
